@@ -35,9 +35,13 @@
 #include "iogateway/RawDataMessageIOGateway.h"
 #include "iogateway/SLIPFramedDataMessageIOGateway.h"
 #include "dataio/DataIO.h"
+#include "iogateway/WebSocketMessageIOGateway.h"
+#include "dataio/StressTestParserProxyDataIO.h"
 #include "system/SetupSystem.h"
 #undef private
 #undef protected
+#include "lang/c/minimessage/MiniMessageGateway.h"
+#include "lang/c/micromessage/MicroMessageGateway.h"
 
 using namespace muscle;
 
@@ -168,14 +172,187 @@ static std::string show_msg(char kind, const MessageRef & m)
    return r + ")";
 }
 
+// ---- templating gateway support: the Message-level functions the Coq model treats as external are
+// tabulated per queued Message by a "describe" pre-pass (head D), see checks/c03.py gen_tmpl_model
+static std::string shape_of(const Message & m)
+{
+   // flattenable field names, types and item counts, recursively: what DoesTemplateDescribeMessage() compares
+   std::ostringstream o;
+   for (MessageFieldNameIterator it = m.GetFieldNameIterator(); it.HasData(); it++)
+   {
+      const String & fn = it.GetFieldName();
+      uint32 tc = 0, cnt = 0; (void) m.GetInfo(fn, &tc, &cnt);
+      if ((tc == B_POINTER_TYPE)||(tc == B_TAG_TYPE)) continue;
+      o << hex((const uint8 *)fn(), fn.Length()) << "." << tc << "." << cnt;
+      if (tc == B_MESSAGE_TYPE) {o << "<"; for (uint32 i=0; i<cnt; i++) {ConstMessageRef sub; if (m.FindMessage(fn, i, sub).IsOK()) o << shape_of(*sub()) << "+";} o << ">";}
+      o << "_";
+   }
+   return o.str();
+}
+
+static void run_describe(int k, const std::string & body)
+{
+   std::vector<std::string> ops = split(body, ';');
+   std::ostringstream o;
+   for (size_t n=0; n<ops.size(); n++)
+   {
+      std::vector<std::string> a = split(ops[n], ':');
+      if ((a[0] != "q")||(a.size() < 2)) continue;
+      const std::string fb = unhex(a[1]);
+      Message m; if (m.UnflattenFromBytes((const uint8 *)fb.data(), (uint32)fb.size()).IsError()) {o << "bad,"; continue;}
+      MessageRef t = m.CreateMessageTemplate();
+      std::string tf(t() ? m.TemplatedFlattenedSize(*t()) : 0, 0);
+      if ((t())&&(tf.size() > 0)) m.TemplatedFlatten(*t(), DataFlattener((uint8 *)&tf[0], (uint32)tf.size()));
+      o << ((m.GetNumNames() == 0) ? 1 : 0) << "/" << m.what << "/" << m.TemplateHashCode64() << "/" << (t() ? t()->FlattenedSize() : 0)
+        << "/" << hex(tf) << "/" << shape_of(m) << ",";
+   }
+   printf("%d %s\n", k, o.str().c_str());
+   fflush(stdout);
+}
+
+static std::string cache_obs(const Hashtable<uint64, MessageRef> & c, uint32 tally)
+{
+   std::ostringstream o; bool first = true;
+   for (ConstHashtableIterator<uint64, MessageRef> it(c); it.HasData(); it++) {if (!first) o << "."; first = false; o << it.GetKey();}
+   o << "/" << tally;
+   return o.str();
+}
+
+// ---- the C gateways (lang/c): scripted send/receive callbacks over the same pipe
+struct CScript {Pipe * p; std::vector<uint32> script; size_t pos; uint32 Next() {uint32 k = (pos < script.size()) ? script[pos] : 0; pos++; return k;}};
+static int32 c_send(const uint8 * buf, uint32 n, void * arg)
+{
+   CScript * cs = (CScript *) arg;
+   const uint32 m = std::min(n, cs->Next());
+   for (uint32 i=0; i<m; i++) cs->p->q.push_back(buf[i]);
+   return (int32) m;
+}
+static int32 c_recv(uint8 * buf, uint32 n, void * arg)
+{
+   CScript * cs = (CScript *) arg;
+   const uint32 m = std::min(n, std::min(cs->Next(), (uint32) cs->p->q.size()));
+   for (uint32 i=0; i<m; i++) {buf[i] = cs->p->q.front(); cs->p->q.pop_front();}
+   return (int32) m;
+}
+
+// heads MC (MiniMessageGateway sends, C++ MessageIOGateway receives), CM, UC (MicroMessageGateway sends), CU.
+// Oracle only: the flattened bytes of every delivered Message must equal those of the queued one, in order.
+static void run_c_case(int k, const std::string & headstr, const std::string & body)
+{
+   std::ostringstream orc;
+   {
+      const bool cSends = (headstr[0] != 'C');
+      const bool mini   = (headstr.find('M') != std::string::npos);
+      Pipe pipe;
+      CScript cscr; cscr.p = &pipe; cscr.pos = 0;
+      ScriptIO * xio = new ScriptIO(&pipe); DataIORef xref(xio);
+      MessageIOGateway cppgw; cppgw.SetDataIO(xref);
+      QueueGatewayMessageReceiver recv;
+      MMessageGateway * mgw = mini ? MGAllocMessageGateway() : NULL;
+      static uint8 uin[70000], uout[70000];
+      UMessageGateway ugw; if (!mini) UGGatewayInitialize(&ugw, uin, sizeof(uin), uout, sizeof(uout));
+      std::vector<std::string> sent, got;
+      bool skip = false;
+      std::vector<std::string> ops = split(body, ';');
+      for (size_t n=0; (n<ops.size())&&(!skip); n++)
+      {
+         if (ops[n].empty()) continue;
+         std::vector<std::string> a = split(ops[n], ':');
+         if (a[0] == "q")
+         {
+            const std::string fb = unhex(a.size()>1 ? a[1] : "");
+            sent.push_back(fb);
+            if (!cSends)
+            {
+               MessageRef m = GetMessageFromPool();
+               if (m()->UnflattenFromBytes((const uint8 *)fb.data(), (uint32)fb.size()).IsError()) {fprintf(stderr, "case %d: bad body\n", k); exit(2);}
+               (void) cppgw.AddOutgoingMessage(m);
+            }
+            else if (mini)
+            {
+               MMessage * mm = MMAllocMessage(0);
+               if (MMUnflattenMessage(mm, fb.data(), (uint32)fb.size()) != CB_NO_ERROR) orc << k << " ORACLE FAIL MMUnflattenMessage rejects a valid flattened Message\n";
+               else if (MGAddOutgoingMessage(mgw, mm) != CB_NO_ERROR) orc << k << " ORACLE FAIL MGAddOutgoingMessage failed\n";
+               MMFreeMessage(mm);
+            }
+            else
+            {
+               // micro: rebuild the Message through the UMessage API (int32 and string fields only)
+               Message cm; (void) cm.UnflattenFromBytes((const uint8 *)fb.data(), (uint32)fb.size());
+               UMessage um = UGGetOutgoingMessage(&ugw, cm.what);
+               bool ok = UMIsMessageValid(&um);
+               for (MessageFieldNameIterator it = cm.GetFieldNameIterator(); (ok)&&(it.HasData()); it++)
+               {
+                  const String & fn = it.GetFieldName();
+                  uint32 tc = 0, cnt = 0; (void) cm.GetInfo(fn, &tc, &cnt);
+                  if (tc == B_INT32_TYPE) {std::vector<int32> v; for (uint32 i=0; i<cnt; i++) v.push_back(cm.GetInt32(fn, 0, i)); ok = (UMAddInt32s(&um, fn(), &v[0], cnt) == CB_NO_ERROR);}
+                  else if (tc == B_STRING_TYPE) {std::vector<const char *> v; for (uint32 i=0; i<cnt; i++) v.push_back(cm.GetStringPointer(fn, NULL, i)->Cstr()); ok = (UMAddStrings(&um, fn(), &v[0], cnt) == CB_NO_ERROR);}
+                  else {ok = false; skip = true;}
+               }
+               if (ok) UGOutgoingMessagePrepared(&ugw, &um); else {UGOutgoingMessageCancelled(&ugw, &um); sent.pop_back();}
+            }
+         }
+         else if (a[0] == "o")
+         {
+            const uint32 maxb = (uint32) strtoul(a[1].c_str(), NULL, 10);
+            cscr.script = nums(a.size()>2 ? a[2] : ""); cscr.pos = 0; xio->Load(cscr.script);
+            if (!cSends) (void) cppgw.DoOutput(maxb);
+            else if (mini) (void) MGDoOutput(mgw, maxb, c_send, &cscr);
+            else (void) UGDoOutput(&ugw, maxb, c_send, &cscr);
+         }
+         else if (a[0] == "i")
+         {
+            const uint32 maxb = (uint32) strtoul(a[1].c_str(), NULL, 10);
+            cscr.script = nums(a.size()>2 ? a[2] : ""); cscr.pos = 0; xio->Load(cscr.script);
+            if (cSends)
+            {
+               (void) cppgw.DoInput(recv, maxb);
+               MessageRef m; while(recv.RemoveHead(m).IsOK()) {ByteBufferRef b = m()->FlattenToByteBuffer(); got.push_back(std::string((const char *)b()->GetBuffer(), b()->GetNumBytes()));}
+            }
+            else if (mini)
+            {
+               MMessage * rm = NULL;
+               const int32 r = MGDoInput(mgw, maxb, c_recv, &cscr, &rm);
+               if (r < 0) {orc << k << " ORACLE FAIL MGDoInput reports an error on a well-formed stream at op#" << n << "\n"; skip = true;}
+               if (rm) {std::string f(MMGetFlattenedSize(rm), 0); MMFlattenMessage(rm, &f[0]); got.push_back(f); MMFreeMessage(rm);}
+            }
+            else
+            {
+               UMessage rm;
+               const int32 r = UGDoInput(&ugw, maxb, c_recv, &cscr, &rm);
+               if (r < 0) {orc << k << " ORACLE FAIL UGDoInput reports an error on a well-formed stream at op#" << n << "\n"; skip = true;}
+               if (UMIsMessageValid(&rm)) got.push_back(std::string((const char *)UMGetFlattenedBuffer(&rm), UMGetFlattenedSize(&rm)));
+            }
+            bool ok = (got.size() <= sent.size());
+            for (size_t i=0; (ok)&&(i<got.size()); i++) if (got[i] != sent[i]) ok = false;
+            if ((!ok)&&(!skip)) {orc << k << " ORACLE FAIL " << headstr << ": delivered sequence is not a prefix of the queued sequence (item " << got.size() << " of " << sent.size() << ") after op#" << n << "\n"; skip = true;}
+         }
+      }
+      const bool senderDone = cSends ? (mini ? (MGHasBytesToOutput(mgw) == 0) : (UGHasBytesToOutput(&ugw) == 0)) : (cppgw.HasBytesToOutput() == false);
+      if ((!skip)&&(senderDone)&&(pipe.q.empty())&&(got.size() != sent.size())) orc << k << " ORACLE FAIL " << headstr << ": all bytes moved but " << got.size() << " of " << sent.size() << " Messages delivered\n";
+      if (mgw) MGFreeMessageGateway(mgw);
+   }
+   printf("%d oracle-only\n", k);
+   if (!orc.str().empty()) fputs(orc.str().c_str(), stdout);
+   fflush(stdout);
+}
+
 static void run_case(int k, const std::string & line)
 {
    size_t bar = line.find('|');
    if (bar == std::string::npos) return;
    std::vector<std::string> head = split(line.substr(0, bar), ':');
+   if ((head[0] == "MC")||(head[0] == "CM")||(head[0] == "UC")||(head[0] == "CU")) {run_c_case(k, head[0], line.substr(bar+1)); return;}
+   if (head[0] == "D") {run_describe(k, line.substr(bar+1)); return;}
    // a head starting with 'K' (KF, KT, KR) runs the same gateway class over a packet-style DataIO (oracle only)
    const bool packet_mode = (head[0].size() > 1)&&(head[0][0] == 'K');
-   const char kind = head[0].empty() ? '?' : head[0][packet_mode ? 1 : 0];
+   // a head starting with 'X' (XF, XT, XR, XS) puts dataio/StressTestParserProxyDataIO between the sender and the
+   // scripted transport (second, independent segmenter; its min/max child write sizes are the last two head fields)
+   const bool stress_mode = (head[0].size() > 1)&&(head[0][0] == 'X');
+   // heads WC / WS: WebSocketMessageIOGateway pair after the handshake, client->server (masked frames) or
+   // server->client, each end with a slave MessageIOGateway; Messages as for F
+   const bool ws_mode = (head[0] == "WC")||(head[0] == "WS");
+   const char kind = head[0].empty() ? '?' : (ws_mode ? 'F' : head[0][(packet_mode||stress_mode) ? 1 : 0]);
    std::ostringstream o, orc;
    {
       Pipe pipe;
@@ -186,12 +363,22 @@ static void run_case(int k, const std::string & line)
       ScriptPacketIO * rpio = new ScriptPacketIO(&packets, 1400); DataIORef rpref(rpio);
       AbstractMessageIOGatewayRef sgw, rgw;
       uint32 minc = 0;
-      if ((kind == 'F')||(kind == 'P'))
+      bool wsClientSends = (head[0] == "WC"), wsT = true, wsF = false;
+      StressTestParserProxyDataIO * sio = NULL;
+      if (ws_mode)
+      {
+         WebSocketMessageIOGateway * s = new WebSocketMessageIOGateway(wsClientSends ? &wsT : &wsF);
+         WebSocketMessageIOGateway * r = new WebSocketMessageIOGateway(wsClientSends ? &wsF : &wsT);
+         s->SetSlaveGateway(AbstractMessageIOGatewayRef(new MessageIOGateway)); r->SetSlaveGateway(AbstractMessageIOGatewayRef(new MessageIOGateway));
+         sgw.SetRef(s); rgw.SetRef(r);
+      }
+      else if ((kind == 'F')||(kind == 'P'))
       {
          const int32 enc = MUSCLE_MESSAGE_ENCODING_DEFAULT + atoi(head.size()>1 ? head[1].c_str() : "0");
          const uint32 maxin = (head.size()>2) ? (uint32) strtoul(head[2].c_str(), NULL, 10) : MUSCLE_NO_LIMIT;
-         MessageIOGateway * s = (kind == 'F') ? new MessageIOGateway(enc) : new TemplatingMessageIOGateway(1024*1024, enc);
-         MessageIOGateway * r = (kind == 'F') ? new MessageIOGateway(enc) : new TemplatingMessageIOGateway(1024*1024, enc);
+         const uint32 maxcache = ((kind == 'P')&&(head.size()>3)&&(!head[3].empty())) ? (uint32) strtoul(head[3].c_str(), NULL, 10) : (1024*1024);
+         MessageIOGateway * s = (kind == 'F') ? new MessageIOGateway(enc) : new TemplatingMessageIOGateway(maxcache, enc);
+         MessageIOGateway * r = (kind == 'F') ? new MessageIOGateway(enc) : new TemplatingMessageIOGateway(maxcache, enc);
          r->SetMaxIncomingMessageSize(maxin);
          sgw.SetRef(s); rgw.SetRef(r);
       }
@@ -210,9 +397,16 @@ static void run_case(int k, const std::string & line)
       else if (kind == 'S') {sgw.SetRef(new SLIPFramedDataMessageIOGateway); rgw.SetRef(new SLIPFramedDataMessageIOGateway);}
       else {fprintf(stderr, "bad head [%s]\n", line.c_str()); exit(2);}
       // gateways whose wire format is not (yet) modelled in Coq run for the end-to-end oracle only
-      const bool oracle_only = (packet_mode)||(kind == 'P');
+      const bool oracle_only = (packet_mode)||(stress_mode)||(ws_mode)||((kind == 'P')&&(head.size() < 5));
+      DataIORef sref;
+      if (stress_mode)
+      {
+         const uint32 minw = (head.size() >= 2) ? (uint32) strtoul(head[head.size()-2].c_str(), NULL, 10) : 0;
+         const uint32 maxw = (head.size() >= 2) ? (uint32) strtoul(head[head.size()-1].c_str(), NULL, 10) : 1;
+         sio = new StressTestParserProxyDataIO(wref, minw, maxw, 0); sref.SetRef(sio);
+      }
       if (packet_mode) {sgw()->SetDataIO(wpref); rgw()->SetDataIO(rpref);}
-                  else {sgw()->SetDataIO(wref);  rgw()->SetDataIO(rref);}
+                  else {sgw()->SetDataIO(stress_mode ? sref : wref);  rgw()->SetDataIO(rref);}
       QueueGatewayMessageReceiver recv;
 
       std::vector<std::string> sent, got;   // the oracle's own record (items, see items_of)
@@ -270,11 +464,12 @@ static void run_case(int k, const std::string & line)
             const io_status_t r = sgw()->DoOutput(maxb);
             o << "o"; if (r.IsError()) o << "E"; else o << r.GetByteCount();
             o << ":" << hex(wio->_moved) << ":" << sgw()->GetOutgoingMessageQueue().GetNumItems() << "/";
-            if (kind == 'F')
+            if (((kind == 'F')||(kind == 'P'))&&(!ws_mode))
             {
                MessageIOGateway * g = static_cast<MessageIOGateway *>(sgw());
                if (g->_sendBuffer._buffer()) o << g->_sendBuffer._buffer()->GetNumBytes(); else o << "-";
                o << "/" << g->_sendBuffer._offset;
+               if (kind == 'P') {TemplatingMessageIOGateway * tg = static_cast<TemplatingMessageIOGateway *>(sgw()); o << "/" << cache_obs(tg->_outgoingTemplates, tg->_outgoingTemplatesTotalSizeBytes);}
             }
             else if (kind == 'T')
             {
@@ -287,6 +482,12 @@ static void run_case(int k, const std::string & line)
                o << (g->_sendMsgRef() ? 1 : 0) << "/" << g->_sendBufIndex << "/" << g->_sendBufByteOffset << "/" << g->_sendBufLength;
             }
          }
+         else if (c == "f")   // stress proxy: push buffered output to the transport (script = child Write counts)
+         {
+            wio->Load(nums(a.size()>1 ? a[1] : ""));
+            if (sio) sio->WriteBufferedOutput();
+            o << "f";
+         }
          else if (c == "i")
          {
             const uint32 maxb = (uint32) strtoul(a[1].c_str(), NULL, 10);
@@ -297,12 +498,13 @@ static void run_case(int k, const std::string & line)
             MessageRef m;
             while(recv.RemoveHead(m).IsOK()) {o << show_msg(kind, m); items_of(kind, m, got);}
             o << ":";
-            if ((kind == 'F')||(kind == 'P'))
+            if (((kind == 'F')||(kind == 'P'))&&(!ws_mode))
             {
                MessageIOGateway * g = static_cast<MessageIOGateway *>(rgw());
                const ByteBuffer * bb = g->_recvBuffer._buffer();
                if (bb) o << bb->GetNumBytes() << "/" << g->_recvBuffer._offset << "/" << ((bb == g->_scratchRecvBuffer()) ? "S" : "H"); else o << "-/" << g->_recvBuffer._offset << "/-";
                o << "/" << (g->GetUnrecoverableErrorStatus().IsError() ? 1 : 0);
+               if (kind == 'P') {TemplatingMessageIOGateway * tg = static_cast<TemplatingMessageIOGateway *>(rgw()); o << "/" << cache_obs(tg->_incomingTemplates, tg->_incomingTemplatesTotalSizeBytes);}
             }
             else if (kind == 'T')
             {
@@ -344,7 +546,7 @@ static void run_case(int k, const std::string & line)
          o << " ";
       }
       // ---- oracle: completeness once everything has been moved
-      if ((oracle_on)&&(!failed)&&(sgw()->HasBytesToOutput() == false)&&(pipe.q.empty())&&(packets.empty()))
+      if ((oracle_on)&&(!failed)&&(sgw()->HasBytesToOutput() == false)&&(pipe.q.empty())&&(packets.empty())&&((sio == NULL)||(sio->HasBufferedOutput() == false)))
       {
          if (kind == 'R')
          {
